@@ -5,6 +5,8 @@
     ldi r, imm8    2 bytes  A<r> ii            (4-bit opcode A, 4-bit register code, 8-bit argument)
     jmp addr       1+AB     4C + address (address_size/8 bytes, default endian)
     brr rel8       2 bytes  80 oo              (offset from the instruction address, -128..127)
+    n12 imm8       2 bytes  3i i0              (12 bits: 4-bit opcode 3, 8-bit argument that is not byte aligned; padded)
+    m2 x, y        4 bytes  macro: n12 x / n12 y   (each step padded to whole bytes on its own)
 
 All opcodes differ from every fill/marker value used by the checks.
 """
@@ -36,6 +38,7 @@ def probe_isa(address_size=16, endian='little', origin=None, page_size=None, zon
                 'b': {'type': 'register', 'register': 'b', 'bytecode': {'value': 1, 'size': 4}},
             }},
             'imm8': {'operand_values': {'i': {'type': 'numeric', 'argument': {'size': 8, 'byte_align': True}}}},
+            'imm8u': {'operand_values': {'u': {'type': 'numeric', 'argument': {'size': 8, 'byte_align': False}}}},
             'addr': {'operand_values': {'ad': {'type': 'address', 'argument': {'size': addr_bits, 'byte_align': True}}}},
             'rel': {'operand_values': {'r': {'type': 'relative_address',
                                              'argument': {'size': 8, 'byte_align': True, 'min': -128, 'max': 127}}}},
@@ -49,6 +52,12 @@ def probe_isa(address_size=16, endian='little', origin=None, page_size=None, zon
                     'operands': {'count': 1, 'operand_sets': {'list': ['addr']}}},
             'brr': {'bytecode': {'value': 0x80, 'size': 8},
                     'operands': {'count': 1, 'operand_sets': {'list': ['rel']}}},
+            'n12': {'bytecode': {'value': 0x3, 'size': 4},
+                    'operands': {'count': 1, 'operand_sets': {'list': ['imm8u']}}},
+        },
+        'macros': {
+            'm2': [{'operands': {'count': 2, 'operand_sets': {'list': ['imm8u', 'imm8u']}},
+                    'instructions': ['n12 @ARG(0)', 'n12 @ARG(1)']}],
         },
     }
     pre = {}
